@@ -245,10 +245,9 @@ theorem consistent_sameShape {s : St} (hc : Consistent s) {L L' : Layer} (hup : 
     rw [hagree]; exact hl.child pp pm n c hpm hcm
   · intro p m hm hlo n
     show (n ∈ m.kids → localExp (s.disk.setLayer 0 L') m n ≠ []) ∧
-      (headStat (s.disk.setLayer 0 L') (localExp (s.disk.setLayer 0 L') m n) ≠ none → n ∈ m.kids)
+      (needsNode (localExp (s.disk.setLayer 0 L') m n) = true → n ∈ m.kids)
     rw [hagree]
-    have := hl.kidsLoaded p m hm hlo n
-    exact ⟨this.1, fun h => this.2 ((headStat_ne_none_iff s.disk _ _).1 h)⟩
+    exact hl.kidsLoaded p m hm hlo n
 
 /-- a host call that only changes attributes -/
 def KeepShape (f : Layer → Except Nat Layer) : Prop := ∀ L L', f L = .ok L' → ∀ p, sameShape (L' p) (L p)
